@@ -19,6 +19,10 @@ type Plan struct {
 	Tier  string `json:"tier,omitempty"`
 	Cfg   Config `json:"cfg"`
 	Tasks []Task `json:"tasks"`
+	// Shared lists values that are built once per run and that operands
+	// of kind "shared" refer to by index: the same read-only value printed
+	// by several tasks (shared.go).
+	Shared []Val `json:"shared,omitempty"`
 	// Prefix lists the seeds of earlier runs (same property and tier) that
 	// must be executed in the same process before this plan for the
 	// violation to show: the code under test then keeps state across
